@@ -455,6 +455,47 @@ func runExt4Case(prop string, c core.Case, env *core.Env) core.Result {
 			drv.CloseAll()
 			reopenCmp()
 		}
+	case "stalegap":
+		// free space that holds old non-zero data (files written and removed), then small files whose
+		// next write starts behind their end: inside the block they already own, at its last byte, in
+		// the next block and several blocks on - every byte of the gap must read as zero, live, after
+		// re-opening and (C05) for debugfs
+		drv.Light = true
+		for i := 0; i < 6; i++ {
+			if !step(fsdrive.Op{Kind: "write", Path: fmt.Sprintf("old%02d.bin", i), Len: 96*bs + i, DSeed: uint64(4000 + i)}) {
+				return res
+			}
+		}
+		for i := 0; i < 6; i++ {
+			if !step(fsdrive.Op{Kind: "remove", Path: fmt.Sprintf("old%02d.bin", i)}) {
+				return res
+			}
+		}
+		k := 0
+		for _, sz := range []int{1, 100, bs / 2, bs - 1, bs, bs + 7, 3*bs + bs/3} {
+			for _, gap := range []int{1, 57, bs - (sz % bs) - 1, bs, 2*bs + 5} {
+				if gap <= 0 {
+					continue
+				}
+				for _, w := range []int{1, 10, bs + 3} {
+					k++
+					p := fmt.Sprintf("gap%03d.bin", k)
+					if !step(fsdrive.Op{Kind: "write", Path: p, Len: sz, DSeed: uint64(5000 + k)}) ||
+						!step(fsdrive.Op{Kind: "write", Path: p, Off: int64(sz + gap), Len: w, DSeed: uint64(6000 + k)}) {
+						return res
+					}
+				}
+			}
+		}
+		res.Mark("writes behind the end of a file on free space holding old data")
+		if !drv.Diverged {
+			drv.Light = false
+			drv.CloseAll()
+			if prop == "C04" {
+				drv.Compare(fs, "live", nil)
+			}
+			reopenCmp()
+		}
 	case "dirgrow":
 		// two directories grow block by block while file data is allocated right behind their last block, so
 		// that the directories end up in many separate extents (more than the four an inode holds); then
